@@ -24,7 +24,7 @@ spec fn ps_inv(s: crate::htlc_manager::PaymentState, g: G) -> bool {
 //@ returns r
 //@ implicit [C06]
 //@ ensures#blank_entry [C03,C06,C07]
-      ps_inv(r, G { ready_q: Seq::empty(), fail_q: Seq::empty(), held: Seq::empty(), ever_ready_sent: false, via_listener: false, incoming: 0 })
+      ps_inv(r, G { ready_q: Seq::empty(), fail_q: Seq::empty(), held: Seq::empty(), ever_ready_sent: false, via_listener: false, listener_value: None, incoming: 0 })
       && r.trampoline == trampoline && r.resolution is None && !r.is_ready && !r.is_fail_requested
 //@ end
 
@@ -54,6 +54,7 @@ spec fn ps_inv(s: crate::htlc_manager::PaymentState, g: G) -> bool {
 //@ ensures#frame
       final(self).trampoline == old(self).trampoline && final(g).fail_q == old(g).fail_q
       && final(self).is_fail_requested == old(self).is_fail_requested
+      && final(g).via_listener == old(g).via_listener && final(g).listener_value == old(g).listener_value
 //@ proof before_stmt /^self\.htlcs\.push\(sender\);/
       lemma_push_held(g.held, HeldAbs { amount: req.htlc.amount_msat, expiry: req.htlc.cltv_expiry });
       ghost_hold(g, HeldAbs { amount: req.htlc.amount_msat, expiry: req.htlc.cltv_expiry });
@@ -76,4 +77,5 @@ spec fn ps_inv(s: crate::htlc_manager::PaymentState, g: G) -> bool {
       final(g).held == old(g).held && final(g).ready_q == old(g).ready_q && final(self).htlcs@ == old(self).htlcs@
       && final(self).trampoline == old(self).trampoline && final(self).resolution == old(self).resolution
       && final(self).amount_received_msat == old(self).amount_received_msat && final(self).cltv_expiry == old(self).cltv_expiry
+      && final(g).via_listener == old(g).via_listener && final(g).listener_value == old(g).listener_value
 //@ end
